@@ -3,7 +3,8 @@
 translate:   translator/extract_geodesy.py → Generated/PositionSystems.lean (registered conversions, constant.GM)
 prove:       lean/Midgard/Props/C07.lean — two-body relations of `kepler2trs` output for all elements with
              cos²+sin² = 1 pairs (vis-viva, angular momentum, inclination/node/perigee direction pairs, r·v),
-             Kepler's equation, true-anomaly half-angle relation, algebraic parts of the inverse
+             Kepler's equation, true-anomaly half-angle relation, both inverses over ℝ, principal ranges,
+             coherence of the conversion cache of PosVel objects in every history (Model/PosCache.lean)
 correspond:  PosVel(...,'kepler').trs, PosVel(...,'trs').kepler, .M, .f of the real code vs the compiled model
              at `Float` (whole chain through libm) and, for the algebraic core of kepler2trs, at `Rat` on the exact
              rationals of NumPy's cos/sin/sqrt values
@@ -11,6 +12,11 @@ oracle:      on the real code: state -> elements -> state < 1e-8 relative; eleme
              angular-momentum eccentricity and inclination, node/perigee/anomaly angles against an independent
              vector construction (node line, eccentricity vector) and in their principal ranges; Kepler's equation and
              the half-angle relation; same numbers for (6,), (1,6), (n,6)
+histories:   harness/c07_hist.py — conversions, row views, row copies and in-place writes on a store of PosVel objects:
+             oracle = every conversion handed out equals the conversion of a freshly built object with the current
+             contents (plain-NumPy shadow of the writes), M/f belong to the current elements; correspondence = the
+             Lean store (`c07 hist`): id handed out, `_cache`, `_dependent_objs` of every object after every step,
+             symbolic contents at the end
 """
 from __future__ import annotations
 
@@ -25,6 +31,7 @@ from . import common
 from .common import Ctx, frac
 from .geo_common import disagree as gdisagree, violate as gviolate, leancheck, run_corpus
 from .geo_common import PI, as_shape, close, fbits, fline, floats, qline, rats, rows_of, ulps
+from . import c07_hist
 
 REL = 1e-8
 TWO_PI = 2 * PI
@@ -74,11 +81,23 @@ def run(ctx: Ctx):
     leancheck(ctx, "C07")
     ctx.rule = ("elements: a in [6600 km, 60000 km], e in [0.001, 0.95] (log-dense at small e, both ends), i in [0.01, pi-0.01] "
                 "(incl. polar, both ends, retrograde), Omega/omega/E in [0, 2pi) with octant boundaries and +-1e-9/1e-4 "
-                "neighbourhoods; shapes (6,), (1,6), (n,6); both directions. Non-trivial: every case; distinct by element values.")
+                "neighbourhoods; shapes (6,), (1,6), (n,6); both directions. Histories (every second case): 1-6 objects, 4-14 "
+                "operations out of PosVel(...), to_system, obj[int|slice] views (and views of views), obj[[rows]] copies, "
+                "obj[key] = values with key int / slice / : / (row, column) / list of rows, written to the source, to a view, "
+                "to a view of a view, to the conversion handed out or to a view of it; 8 scripted shapes of the pattern convert -> "
+                "keep -> write in place -> convert the kept object back (both directions) + random histories; every object is "
+                "converted once more at the end. Non-trivial: every case; distinct by element values / operations.")
     ctx.trusted += ["floating-point error is measured on the sampled inputs, not proved",
                     "libm sin/cos/sqrt/atan2 (principal range (-pi, pi]) trusted",
-                    "NumPy broadcasting / einsum / matmul over rows modelled as map; `a ** 3` modelled as a*a*a"]
-    ctx.assumptions += ["model inputs are the exact doubles the implementation was given; GM = constant.GM of the tree under test"]
+                    "NumPy broadcasting / einsum / matmul over rows modelled as map; `a ** 3` modelled as a*a*a",
+                    "histories: NumPy basic/advanced indexing semantics (the shadow replays the writes on plain ndarrays); the "
+                    "model store abstracts array values (symbolic terms, evaluated by the harness with fresh conversions)"]
+    ctx.assumptions += ["model inputs are the exact doubles the implementation was given; GM = constant.GM of the tree under test",
+                        "histories: contents are written through `obj[key] = v` of the object or of a view obtained by obj[int] / "
+                        "obj[slice] while all objects stay referenced, attribute `other` is None; writes that bypass __setitem__ "
+                        "(np.copyto, obj.val[:] = v, obj.fill, the ndarray the object was built from) and views NumPy creates without "
+                        "__getitem__'s registration (obj[i, :], obj[...], obj.view(), obj.reshape) leave caches stale and are outside "
+                        "the histories generated"]
     PosVel, GM = _imp()
     drv, rng = ctx.driver, ctx.rng
     gm_model = drv.ask1("c07 gm")
@@ -86,7 +105,18 @@ def run(ctx: Ctx):
         gdisagree(ctx, "constant.GM (generated table)", {"fn": "GM"}, gm_model, GM)
     n = ctx.budget(700, 35000)
     corpus = []
-    run_corpus(ctx, "C07", lambda c: corpus.append(c) if c.get("kind") == "kepler" else None)
+    hist_corpus = []
+
+    def sort_corpus(c):
+        for one in (c if isinstance(c, list) else [c]):
+            if one.get("kind") == "kepler":
+                corpus.append(one)
+            elif one.get("kind") == "history":
+                hist_corpus.append(one)
+
+    run_corpus(ctx, "C07", sort_corpus)
+    for c in hist_corpus:
+        history_case(ctx, "corpus", recorded=c)
     for gi in range(len(corpus) + n):
         if gi < len(corpus):
             shape, els = corpus[gi]["shape"], [list(map(float, r)) for r in corpus[gi]["elements"]]
@@ -109,8 +139,22 @@ def run(ctx: Ctx):
             gviolate(ctx, f"raises:{type(e).__name__}", f"kepler/trs conversion raised {type(e).__name__}: {e}", case)
         if gi % 29 == 0:
             check_gm_sources(ctx)
+        if gi % 2 == 0:
+            history_case(ctx, c07_hist.TEMPLATES[(gi // 2) % len(c07_hist.TEMPLATES)])
     check_gm_sources(ctx)
     ctx.traces = ctx.evaluations
+
+
+def history_case(ctx, template, recorded=None):
+    """a history of conversions, views and in-place writes on PosVel objects (harness/c07_hist.py)"""
+    PosVel, GM = _imp()
+    h = None
+    try:
+        h = c07_hist.run_history(ctx, PosVel, GM, template, gen_elements, recorded)
+    except Exception as e:
+        gviolate(ctx, f"history:harness-raises:{type(e).__name__}", f"history ({template}) raised {type(e).__name__}: {e}", {"fn": "history", "template": template})
+    if h is not None:
+        ctx.case({"fn": "history", "ops": h.ops, "lits": {k: np.asarray(v).tolist() for k, v in h.lits.items()}}, nontrivial=True)
 
 
 def check_gm_sources(ctx):
@@ -341,11 +385,13 @@ def replay(payload):
     print(json.dumps(c, indent=1, default=str)[:2500])
     print("key:", payload.get("key"), "| what:", payload.get("what"))
     ctx = Ctx("C07", "quick", int(payload.get("seed", 0) or 0))
-    if c.get("fn") not in ("kepler<->trs", "use_source history"):
+    if c.get("fn") not in ("kepler<->trs", "use_source history", "history"):
         print("no dedicated replay for this kind of case")
         return 0
     try:
-        if c["fn"] == "use_source history":
+        if c["fn"] == "history":
+            history_case(ctx, c.get("template", "recorded"), recorded=c)
+        elif c["fn"] == "use_source history":
             gm_history(ctx, c["source"], c["GM_source"], c["leave_block_by"], c["elements"])
         else:
             one_case(ctx, c, c["shape"], c["elements"])
